@@ -102,20 +102,20 @@ def check(prop, tier, seed):
     return vlib.finish(res, t0, assumptions=ASSUME)
 
 
-PIPE_INV = ["SortInv", "TrieInv", "MinInv", "ElimStepInv", "ElimInv", "FinalInv", "AnchorInv", "SymbolicInv", "Replay"]
+PIPE_INV = ["SortInv", "ClusterInv", "TrieInv", "MinInv", "ElimStepInv", "ElimInv", "FinalInv", "AnchorInv", "SymbolicInv", "Replay"]
 
 
 def model_pipeline(res, known, tier, seed):
     """MC_Pipeline: the Level-2 transcription of the whole pipeline, as built and as designed;
     every behaviour is replayed on the real library and its trace validated."""
     thorough = tier == "thorough"
-    runs = [("pipeline_asbuilt", {"MaxLen": 3, "MaxSize": 4 if thorough else 3, "NAtoms": 2, "DevFinals": "TRUE", "Sampled": "FALSE"}, None),
-            ("pipeline_design", {"MaxLen": 3, "MaxSize": 3 if thorough else 2, "NAtoms": 2, "DevFinals": "FALSE", "Sampled": "FALSE"}, None),
+    runs = [("pipeline_asbuilt", {"MaxLen": 3, "MaxSize": 4 if thorough else 3, "NAtoms": 2, "DevFinals": "TRUE", "Sampled": "FALSE", "WithRep": "TRUE"}, None),
+            ("pipeline_design", {"MaxLen": 3, "MaxSize": 3 if thorough else 2, "NAtoms": 2, "DevFinals": "FALSE", "Sampled": "FALSE", "WithRep": "FALSE"}, None),
             # beyond the exhaustive bounds: random inputs (tlc -simulate), every stage invariant on every state
-            ("pipeline_sampled", {"MaxLen": 4, "MaxSize": 6, "NAtoms": 3, "DevFinals": "TRUE", "Sampled": "TRUE"},
-             (3000 if thorough else 300, 12))]
+            ("pipeline_sampled", {"MaxLen": 4, "MaxSize": 6, "NAtoms": 3, "DevFinals": "TRUE", "Sampled": "TRUE", "WithRep": "TRUE"},
+             (3000 if thorough else 300, 40))]
     if thorough:
-        runs.append(("pipeline_abc", {"MaxLen": 2, "MaxSize": 3, "NAtoms": 3, "DevFinals": "TRUE", "Sampled": "FALSE"}, None))
+        runs.append(("pipeline_abc", {"MaxLen": 2, "MaxSize": 3, "NAtoms": 3, "DevFinals": "TRUE", "Sampled": "FALSE", "WithRep": "TRUE"}, None))
     plans = {}
     for tag, consts, sim in runs:
         m = vlib.run_model("Pipeline", constants=consts, invariants=PIPE_INV, tag=tag, simulate=sim, workers=(4 if sim else None))
@@ -133,7 +133,7 @@ def model_pipeline(res, known, tier, seed):
                 if o.get("replay") == "pipeline":
                     key = json.dumps(o["tcs"])
                     plans.setdefault(key, {"tcs": o["tcs"], "runs": [], "pred": []})
-                    cfg = {"nostart": o["nostart"], "noend": o["noend"]}
+                    cfg = {"nostart": o["nostart"], "noend": o["noend"], "rep": o.get("rep", False)}
                     if cfg not in [r["cfg"] for r in plans[key]["runs"]]:
                         plans[key]["runs"].append({"cfg": cfg})
                         plans[key]["pred"].append(o["out"])
